@@ -82,6 +82,7 @@ def verify(contract: Contract, registry, repo=None, case_index=None) -> Function
         c0.oblige("signature.positional_parameter_order", z3.BoolVal(real[: len(want)] == want), "signature", fndef.lineno,
                   f"contract binds positional arguments as {want}; the source declares {real}")
         rep.obligations.extend(c0.obls)
+    static_part = list(rep.obligations)       # independent of the body: kept even if the body leaves the executor's subset
     try:
         import os
         only = os.environ.get("VERIF_CASE")          # developer aid: restrict to cases whose label contains this text
@@ -111,7 +112,7 @@ def verify(contract: Contract, registry, repo=None, case_index=None) -> Function
                                               z3.BoolVal(False), 0, first.ctx))
     except Unsupported as e:
         rep.status, rep.reason = "unsupported", str(e)
-        rep.obligations = []
+        rep.obligations = static_part
     rep.gen_s = round(time.time() - t0, 3)
     return rep
 
